@@ -972,7 +972,7 @@ Qed.
 
 (* ---------------------------------------------------------------- timeStepFactor (same-step total forces) *)
 
-Definition attributed_mts_of (c : @abf_cfg R) (k : Z) (ds : list (@delivery R)) : list (idx * @vec R) :=
+Definition attributed_mts_of (c : @abf_cfg R) (k : Z * Z) (ds : list (@delivery R)) : list (idx * @vec R) :=
   map (fun d => (fst (fst d), snd (fst d)))
       (filter (fun d => awake k (snd d) && eligible c (snd d) && index_ok c (fst (fst d))) ds).
 
@@ -1052,7 +1052,7 @@ Theorem mts_force c k s i d :
   (awake k (st_clk s i) = true ->
      vget Rops (o_fabf (snd so)) d
        = spec_force c (i_apply i) (s_cnt (fst so)) (s_sum (fst so)) (bins Rops c (i_x i)) d /\
-     vget Rops (o_fapp (snd so)) d = IZR k * vget Rops (o_fabf (snd so)) d * sfac Rops c (bins Rops c (i_x i))) /\
+     vget Rops (o_fapp (snd so)) d = IZR (fst k) * vget Rops (o_fabf (snd so)) d * sfac Rops c (bins Rops c (i_x i))) /\
   (awake k (st_clk s i) = false ->
      vget Rops (o_f (snd so)) d = 0 /\ vget Rops (o_fapp (snd so)) d = 0 /\
      s_cnt (fst so) = s_cnt s /\ s_sum (fst so) = s_sum s).
@@ -1073,8 +1073,10 @@ Proof.
 Qed.
 
 (* the bias is awake at step 0 and at every k-th step; with k <= 1 at every step *)
-Lemma awake_examples : awake 2 (0%Z, false) = true /\ awake 2 (1%Z, false) = false /\ awake 3 (6%Z, true) = true /\
-                       awake 1 (5%Z, false) = true.
+Lemma awake_examples : awake (2, 0)%Z (0%Z, false) = true /\ awake (2, 0)%Z (1%Z, false) = false /\ awake (3, 0)%Z (6%Z, true) = true /\
+                       awake (1, 0)%Z (5%Z, false) = true /\
+                       (* a job that starts at absolute step 2^32 + 5 with factor 7: awake at its relative steps 5, 12, ... *)
+                       awake (7, 4294967301)%Z (5%Z, false) = true /\ awake (7, 4294967301)%Z (0%Z, false) = false.
 Proof. repeat split; reflexivity. Qed.
 
 (* ---------------------------------------------------------------- which applied forces are subtracted *)
@@ -1122,9 +1124,9 @@ Lemma bound1_in_grid (c : @abf_cfg R) k b : (0 <= b < zget (c_nx c) k)%Z -> boun
 Proof.
   intros [H0 H1]. unfold bound1. cbv zeta.
   assert (Hrem : Z.rem b (zget (c_nx c) k) = b) by (apply Z.rem_small; lia).
-  destruct (bget (c_periodic c) k); [rewrite Hrem|];
-    (destruct (b <? 0)%Z eqn:E1; [apply Z.ltb_lt in E1; lia|];
-     destruct (zget (c_nx c) k <=? b)%Z eqn:E2; [apply Z.leb_le in E2; lia|]; reflexivity).
+  assert (E1 : (b <? 0)%Z = false) by (apply Z.ltb_ge; lia).
+  assert (E2 : (zget (c_nx c) k <=? b)%Z = false) by (apply Z.leb_gt; lia).
+  destruct (bget (c_periodic c) k); [rewrite Hrem|]; rewrite ?E1, ?E2; rewrite ?E1, ?E2; reflexivity.
 Qed.
 
 Lemma zget_map_seq (f : nat -> Z) (n k : nat) : (k < n)%nat -> zget (map f (seq 0 n)) k = f k.
